@@ -13,7 +13,8 @@ RULE = (
     "after every step each shadow order must appear exactly once in the blotter and in each view (strategy, strategy "
     "+ selection, client, client + strategy, trade), lookups by id / bet id return the same object, live_orders "
     "contains every order that is not complete and never regains an order, and status / matched-only filters (all "
-    "1- and 2-subsets of statuses) return exactly the shadow orders satisfying them. Non-trivial: >= 2 strategies or "
+    "1- and 2-subsets of statuses; every view: strategy, strategy + selection + handicap, client, client + strategy) "
+    "return exactly the shadow orders satisfying them. Non-trivial: >= 2 strategies or "
     "clients and an order that left the live list; distinct = distinct trace JSON."
 )
 ASSUMPTIONS = [
@@ -78,6 +79,32 @@ def live_invariant(d, op):
             if got is not o:
                 raise Violation("blotter-lookup", ("bet-id", "live"), "bet id %s of a replacement / adopted order resolves to %s after %s" % (
                     o.bet_id, "None" if got is None else "another order", op["op"]), d.c)
+    # status / matched-only filters of every view return precisely the orders of the view that satisfy them
+    present = sorted({o.status for o in orders if o.status is not None}, key=lambda x: x.name)
+    keys = {}
+    for o in orders:
+        st_ = o.trade.strategy
+        keys.setdefault(("strategy_orders", id(st_)), (lambda f, mo, a=st_: blotter.strategy_orders(a, order_status=f, matched_only=mo),
+                                                        lambda x, a=st_: x.trade.strategy is a))
+        keys.setdefault(("strategy_selection_orders", id(st_), o.selection_id, o.handicap),
+                        (lambda f, mo, a=st_, b=o.selection_id, h=o.handicap: blotter.strategy_selection_orders(a, b, h, order_status=f, matched_only=mo),
+                         lambda x, a=st_, b=o.selection_id, h=o.handicap: x.trade.strategy is a and (x.selection_id, x.handicap) == (b, h)))
+        keys.setdefault(("client_orders", id(o.client)), (lambda f, mo, c_=o.client: blotter.client_orders(c_, order_status=f, matched_only=mo),
+                                                          lambda x, c_=o.client: x.client is c_))
+        keys.setdefault(("client_strategy_orders", id(o.client), id(st_)),
+                        (lambda f, mo, c_=o.client, a=st_: blotter.client_strategy_orders(c_, a, order_status=f, matched_only=mo),
+                         lambda x, c_=o.client, a=st_: x.client is c_ and x.trade.strategy is a))
+    for key, (query, member) in keys.items():
+        base = [o for o in orders if member(o)]
+        for flt in [[s_] for s_ in present] + [None]:
+            for mo in (None, True):
+                if flt is None and not mo:
+                    continue
+                got = query(flt, mo)
+                exp = [o for o in base if (flt is None or o.status in flt) and (not mo or o.size_matched > 0)]
+                if sorted(map(id, got)) != sorted(map(id, exp)):
+                    raise Violation("blotter-filter", (key[0], "live"), "%s filter %s matched_only=%s returned %d orders, expected %d after %s" % (
+                        key[0], [x.name for x in flt] if flt else None, mo, len(got), len(exp), op["op"]), d.c)
     d.classes.add("live-invariant-checked")
 
 
